@@ -106,6 +106,10 @@ func c04Base() []vec {
 		// spaces around '='
 		out = append(out, vec{s: "<a " + name + " = " + val + ">", ns: 3, nl: len(name), nulOK: true, fam: fam})
 		out = append(out, vec{s: "<a x=1 " + name + "=" + val + ">", ns: 7, nl: len(name), nulOK: true, fam: fam})
+		// every HTML white-space byte ends an unquoted value in front of the attribute
+		for _, ws := range []string{"\t", "\n", "\f", "\r"} {
+			out = append(out, vec{s: "<a x=1" + ws + name + "=" + val + ">", ns: 7, nl: len(name), nulOK: true, fam: fam})
+		}
 		out = append(out, vec{s: "<a x='1'" + name + "=" + val + ">", ns: 8, nl: len(name), nulOK: true, fam: fam})
 	}
 	for _, n := range names {
@@ -122,7 +126,8 @@ func c04Base() []vec {
 				// the ignorable bytes (LF, NUL) written as character references inside the scheme
 				sc[:2] + "&#10;" + sc[2:], sc[:2] + "&#x0A;" + sc[2:], sc[:3] + "&#0;" + sc[3:], sc[:2] + "&#10" + sc[2:],
 				// every byte of the scheme as a hexadecimal / decimal reference (each hex digit of each scheme letter is needed)
-				allRefs(sc, "&#x%x;"), allRefs(sc, "&#X%X;"), allRefs(sc, "&#%d;"),
+				allRefs(sc, "&#x%x;"), allRefs(sc, "&#X%X;"), allRefs(sc, "&#%d;"), allRefs(sc, "&#%04d;"), allRefs(sc, "&#x%05x;"),
+				sc[:len(sc)-1] + fmt.Sprintf("&#%03d;", sc[len(sc)-1]), sc[:len(sc)-1] + fmt.Sprintf("&#x%04X;", sc[len(sc)-1]),
 			}
 			for _, o := range obf {
 				addAttr(a, o+"alert(1)", "url-attr")
@@ -239,7 +244,7 @@ func init() {
 		QuickS:    60,
 		ThoroughS: 600,
 		Rule: "complete product of the calibrated vector grammar: (every shipped + pinned-baseline black tag x 7 endings; every shipped + baseline event/black/style attribute x 4 quotings x {bare, bare+'>', element form with 9 separators, spaced '=', after another attribute}; " +
-			"every URL attribute x 4 schemes x 18 scheme obfuscations; indirect attribute names; doctype/entity/import/xml/IE-conditional/back-tick markup) x (14 breakout prefixes for element forms | 13 attribute-context prefixes for bare attributes) " +
+			"every URL attribute x 4 schemes x 22 scheme obfuscations; indirect attribute names; doctype/entity/import/xml/IE-conditional/back-tick markup) x (14 breakout prefixes for element forms | 13 attribute-context prefixes for bare attributes) " +
 			"x {lower, UPPER, alternating, every single-letter flip of the name, NUL at every interior name position, NUL runs of 2/8/40 in the middle of the name, one NUL in every gap}; every member must be reported by IsXSS; all members are distinct and non-trivial",
 		Assumptions: []string{"the grammar is fixed in c04.go (calibrated once on the repaired pinned tree); list entries are read from the current tables and from the pinned baseline"},
 		Setup: func(w *fw.W) error {
